@@ -343,14 +343,18 @@ def _worker_init(prop):
   prop.setup_impl()
 
 
-def _run_one(case):
+def _run_one_retry(case):
+  return _run_one(case, scale=5)
+
+
+def _run_one(case, scale=1):
   prop = _WORKER_PROP
   # The watchdog counts CPU time of this process (ITIMER_PROF), so that a loaded machine cannot
   # turn a slow case into a spurious time-out; a much longer wall-clock limit catches blocking.
   signal.signal(signal.SIGPROF, _alarm)
   signal.signal(signal.SIGALRM, _alarm)
-  signal.setitimer(signal.ITIMER_PROF, prop.case_timeout_s)
-  signal.setitimer(signal.ITIMER_REAL, max(20 * prop.case_timeout_s, 300))
+  signal.setitimer(signal.ITIMER_PROF, prop.case_timeout_s * scale)
+  signal.setitimer(signal.ITIMER_REAL, max(20 * prop.case_timeout_s, 300) * scale)
   try:
     out = prop.impl(case)
   except CaseTimeout:
@@ -378,7 +382,16 @@ def run_impl(prop, cases, jobs):
     return [_run_one(c) for c in cases]
   ctx = multiprocessing.get_context('fork')
   with ctx.Pool(jobs, initializer=_worker_init, initargs=(prop,)) as pool:
-    return pool.map(_run_one, cases, chunksize=max(1, len(cases) // (jobs * 8)))
+    outs = pool.map(_run_one, cases, chunksize=max(1, len(cases) // (jobs * 8)))
+  # A time-out is only believed after a second, unhurried attempt: the first case of a worker pays
+  # for the library import, and a heavily loaded machine inflates CPU time as well. The retry runs
+  # alone in a fresh process with five times the budget; a genuine hang still times out.
+  late = [i for i, o in enumerate(outs) if isinstance(o, dict) and o.get('timeout')]
+  if 0 < len(late) <= 24:
+    with ctx.Pool(1, initializer=_worker_init, initargs=(prop,)) as pool:
+      for i in late:
+        outs[i] = pool.apply(_run_one_retry, (cases[i],))
+  return outs
 
 
 # ------------------------------------------------------------------------------------------
